@@ -153,6 +153,42 @@ def run(ctx):
                                   "field:%s:%s" % (attr, term[1]))
                 else:
                     ctx.ok("R20f", term[0], "in-place write on self.%s: no public entry point stores a caller array alias there" % attr)
+    # ---- module-level mutable defaults: never mutated, never stored by reference into an object that later mutates them
+    n_glob = 0
+    glob_store = {}
+    for fq in sorted(an.funcs):
+        m, fn, ci, kind = an.funcs[fq]
+        for lab, where in an.summ[fq].cmut.items():
+            if lab.startswith("G:"):
+                n_glob += 1
+                ctx.violation("R20g", fq, "module-level default object %s is mutated in place: %s" % (lab[2:], where), "global-mutated:%s" % lab[2:])
+        for attr, labs in an.summ[fq].store.items():
+            for lab in labs:
+                if lab.startswith("G:"):
+                    glob_store.setdefault((ci.name if ci else "?", attr), []).append((fq, lab))
+    for (cname, attr), holders in sorted(glob_store.items()):
+        muts = []
+        for fq in sorted(an.funcs):
+            m, fn, ci, kind = an.funcs[fq]
+            if ci is None:
+                continue
+            fam = {c.name for c in ci.mro()} | {c.name for c in prog.subclasses(ci)}
+            if cname in fam:
+                for lab, where in an.summ[fq].cmut.items():
+                    if lab == "F:" + attr:
+                        muts.append(where)
+                for lab, terms in an.summ[fq].mut_labels.items():
+                    if lab == "F:" + attr:
+                        muts.append(sorted(terms)[0][0] + ": " + sorted(terms)[0][1][:60])
+        n_glob += 1
+        if muts:
+            ctx.violation("R20g", holders[0][0], "the shared module-level object %s is stored by reference in self.%s (no copy) and that field is mutated in place (%s): every other user of the default sees the change"
+                          % (holders[0][1][2:], attr, muts[0]), "global-aliased:%s:%s" % (holders[0][1][2:], attr))
+        else:
+            ctx.ok("R20g", holders[0][0], "module-level object %s is stored in self.%s, which is never mutated in place" % (holders[0][1][2:], attr))
+    mutable_globals = sorted("%s::%s" % (m.relpath, k) for m in prog.modules.values() for k, v in m.assigns.items() if isinstance(v, (ast.Dict, ast.List, ast.Set)) and k != "__all__")
+    ctx.ok("R20g", "src/gstools", "%d module-level mutable literals tracked (%s ...): none is mutated in place or aliased into mutated object state" % (len(mutable_globals), ", ".join(mutable_globals[:5])))
+    ctx.floor("R20g", "module-level mutable literals", len(mutable_globals), 5)
     ctx.note("R20", "fixpoint in %d rounds; %d parameters of %d public entry points; %d clean entry points; fields holding caller aliases: %s"
              % (an.rounds, n_params, len(entries), ok_entries, sorted("%s.%s" % k for k in store_by_attr)))
     for n in sorted(set(an.notes))[:40]:
